@@ -81,7 +81,7 @@ func newSpecGen(seed int64, nHot int) *specGen {
 	return g
 }
 
-var specKinds = []string{"Struct", "ValidateStruct", "StructForFn", "StructForFns", "NestedStructForRule", "Groups", "Var", "VarForFn", "Map", "MapFn", "Url", "Explain", "Dump", "ColdType", "Helpers", "LongSlice"}
+var specKinds = []string{"Struct", "ValidateStruct", "StructForFn", "StructForFns", "NestedStructForRule", "Groups", "Var", "VarForFn", "Map", "MapFn", "Url", "Explain", "Dump", "ColdType", "Helpers", "LongSlice", "TwoRuleSets", "VarSpread"}
 
 func (g *specGen) next() callSpec {
 	rng := g.rng
@@ -162,6 +162,42 @@ func (g *specGen) next() callSpec {
 		}
 	}
 	switch kind {
+	case "TwoRuleSets":
+		// two rule sets handed to one validator (the later one wins); neither caller-owned map may change
+		t := pickType()
+		v := ptrTo(tunedFill(rng, t, "valid", 0.15))
+		in := v.Interface()
+		rm1, rm2 := toRM(override(t, fmt.Sprintf("a%d", s.ID), "")), toRM(override(t, fmt.Sprintf("b%d", s.ID), ""))
+		o := c16Outer(rng, 1)
+		rmI1, rmI2 := toRM(c16RuleSet(rng, fmt.Sprintf("i1_%d", s.ID), nil, nil)), toRM(c16RuleSet(rng, fmt.Sprintf("i2_%d", s.ID), nil, nil))
+		s.Type = t
+		s.Inputs = []interface{}{in, rm1, rm2, o, rmI1, rmI2}
+		s.Preds = structPreds(in, t)
+		s.Desc = fmt.Sprintf("NewVStruct().SetRule(%v).SetRule(%v).Valid(v); NewVStruct().SetRule(%v,&Inner{}).SetRule(%v,&Inner{}).Valid(outer)", rm1, rm2, rmI1, rmI2)
+		s.Run = func() string {
+			a := normErr(drive.Call(func() error { return valid.NewVStruct().SetRule(rm1).SetRule(rm2).Valid(in) }))
+			b := normErr(drive.Call(func() error {
+				return valid.NewVStruct().SetRule(rmI1, &C16Inner{}).SetRule(rmI2, &C16Inner{}).Valid(o)
+			}))
+			return a + " ## " + b
+		}
+	case "VarSpread":
+		// rules handed over as a caller-owned slice (with empty items), spread into the variadic parameter
+		t := flatScalarTypes[rng.Intn(len(flatScalarTypes))]
+		list := []string{}
+		for k := 0; k < 2+rng.Intn(4); k++ {
+			if rng.Intn(3) == 0 {
+				list = append(list, "")
+				continue
+			}
+			r := strings.Trim(gen.RuleList(rng, t, 1, fmt.Sprintf("vs%d_%d", s.ID, k), gen.MsgUnique, false), ",")
+			list = append(list, r)
+		}
+		full := append(make([]string, 0, len(list)+4), list...) // spare capacity, as a slice cut from a bigger array has
+		v := gen.TunedLeaf(rng, t, strings.Join(list, ","), 0.1).Interface()
+		s.Inputs = []interface{}{v, full}
+		s.Desc = fmt.Sprintf("Var(%v, %q...)", v, full)
+		s.Run = func() string { return normErr(drive.Call(func() error { return valid.Var(v, full...) })) }
 	case "LongSlice":
 		// long, unsorted collections under the rules that walk them (thresholds of fast paths; rules
 		// that sort or de-duplicate must work on copies)
